@@ -338,13 +338,11 @@ def _payload_reads(ctx, prog, eff, reg, f):
                  ("EV", F("emu_ev", "payload_size")): ps, ("EMU", F("emu", "thread")): PTR("TH"),
                  ("EMU", F("emu", "proc")): PTR("PROC"), ("EMU", F("emu", "loom")): PTR("LOOM")}
         args = []
+        byt = {"struct emu *": PTR("EMU"), "struct thread *": PTR("TH"), "struct emu_ev *": PTR("EV"),
+               "struct proc *": PTR("PROC"), "struct loom *": PTR("LOOM"), "union ovni_ev_payload *": PTR("PL")}
         for p in entry.params:
-            if p["ctype"] == "struct emu *":
-                args.append(PTR("EMU"))
-            elif p["ctype"] == "struct thread *":
-                args.append(PTR("TH"))
-            else:
-                args.append(TOP)
+            # whatever part of the emulator state a handler is handed directly is the same state
+            args.append(byt.get(p["ctype"].replace("const ", "").strip(), TOP))
         ex.run(entry, args, store)
         return ex, loads
 
